@@ -324,6 +324,7 @@ def _run(ctx):
     from mstatic.rules import c05
     c05.version_paths(ctx, r5)
     c05.versioned_merges_only(ctx, r5)
+    c05.every_published_key_versioned(ctx, r5)
     mv = prog.func(CV + '._merge_versions')
     r5.check(any(isinstance(n, ast.Call) and U.call_name(n) == 'max' and
                  {norm(a) for a in n.args} == {'ver_left[key]',
